@@ -21,6 +21,7 @@ import (
 	"sync"
 	"sync/atomic"
 	"testing"
+	"testing/synctest"
 	"time"
 
 	"github.com/anishathalye/porcupine"
@@ -47,7 +48,36 @@ func TestC02System(t *testing.T) {
 			kc.Pre = []kop{{Op: "put", Ns: "ns1", Name: "a", Lbl: map[string]string{"sel": "x"}}, {Op: "put", Ns: "ns1", Name: "b", Lbl: map[string]string{"sel": "x"}}}
 			kc.Between = []kop{{Op: "delete", Ns: "ns1", Name: "a"}, {Op: "put", Ns: "ns1", Name: "b", Lbl: map[string]string{"sel": "x"}}, {Op: "put", Ns: "ns1", Name: "c", Lbl: map[string]string{"sel": "x"}}}
 		}
-		rec := runKCase(c, kc, restart, nil)
+		var steady func(sys *vlib.Sys, rec *krecord)
+		if c.Index%4 == 3 {
+			// a write lands between two snapshot reads of ONE execution: two snapshot ticks are combined into
+			// one execution (two contexts including every binding); the first reader is parked after its copy,
+			// an object is created, the reader continues. Every binding's snapshot must still be rendered
+			// identically in both contexts.
+			steady = func(sys *vlib.Sys, rec *krecord) {
+				gate := vlib.NewGate()
+				sys.OnStop(gate.Release)
+				armed := false
+				sys.Pts.On("ri.snap.afterCopy", func(ev vlib.PointEvent) {
+					if armed {
+						gate.Park()
+					}
+				})
+				kh := rec.KC.Hooks[0]
+				armed = true
+				tick(sys, kh.SnapCron)
+				tick(sys, kh.SnapCron)
+				if waitHit(sys, gate) {
+					rec.Armed["write-between-reads-of-one-execution"] = true
+					applyOps(rec.VC, []kop{{Op: "put", Ns: "ns1", Name: "between-reads", Lbl: map[string]string{"sel": "x"}}}, "between two snapshot reads of one execution", rec, nil, rec.KC)
+					synctest.Wait()
+				}
+				armed = false
+				gate.Release()
+				sys.Settle(100)
+			}
+		}
+		rec := runKCase(c, kc, restart, steady)
 		for a := range rec.Armed {
 			res.Count("phase_armed/"+a, 1)
 		}
